@@ -150,13 +150,25 @@ package sample
 //@ assume types.(*Payload).Exists getter
 //@ assume types.(*Payload).Get getter
 
-//@ contract sample.(*distinctValue).AddAsString props C11
+// C09: the text a value contributes to the key depends on the number, not on the Go type the wire encoding
+// produced for it (JSON: float64; msgpack: int64 / uint64 / float32 / float64): every number reads as the plain
+// decimal text of its value.
+//@ spec keyText(v any) string := ite(isString(v), anyString(v), strconv.FormatFloat(numOf(v), 'f', -1, 64))
+//@ contract sample.(*distinctValue).AddAsString props C11,C09
 //@   arith math
 //@   requires d != nil && 0 <= fieldIdx && fieldIdx < len(d.values)
 //@   requires[slots-consistent] forall i int :: 0 <= i && i < len(d.values) ==> slotsConsistent(d.values[i])
-// only string values have a modelled string form here (other types go through strconv / fmt)
-//@   domain[string-value] isString(value)
-//@   let s = anyString(value)
+// strings and numbers have a modelled text form (integers up to 2^53 in magnitude are the ones a float64 carries
+// exactly); booleans, nil and nested values are formatted by fmt and not compared across encodings here
+//@   domain[string-or-number] isString(value) || (isNumeric(value) && (isInt64(value) || isInt(value) || isUint64(value) ==> -9007199254740992 <= anyInt(value) && anyInt(value) <= 9007199254740992))
+// the formatting differs per dynamic type; the solvers do not find this case analysis by themselves in time
+//@   split isString(value)
+//@   split isInt64(value)
+//@   split isInt(value)
+//@   split isUint64(value)
+//@   split isFloat64(value)
+//@   split isFloat32(value)
+//@   let s = keyText(value)
 //@   let h = strHash(s)
 //@   let isNew = !in(d.values[fieldIdx], h)
 //@   ensures[a-known-value-changes-nothing] !isNew ==> !result && d.values == old(d.values) && d.totalUniqueCount == old(d.totalUniqueCount)
@@ -223,3 +235,26 @@ package sample
 //@   ensures[downstream-sampler-decides] forall j int :: 0 <= j && j < len(rules) && ruleApplies(trace, rules[j], nested) && (forall k int :: 0 <= k && k < j ==> !ruleApplies(trace, rules[k], nested)) && rules[j].Sampler != nil && in(s.samplers, rules[j].String()) ==> (forall q int :: q == toInt(refOf(s.samplers[rules[j].String()])) ==> askedN(q) == old(askedN(q)) + 1)
 //@   loop 1 invariant[earlier-rules-did-not-match] s != nil && s.Config != nil && s.Config.Rules == rules && s.Config.CheckNestedFields == nested && (forall k int :: 0 <= k && k < iter ==> !ruleApplies(trace, rules[k], nested)) && (forall q int :: askedN(q) == old(askedN(q)))
 //@   modifies all(askedN)
+
+// ---- C09: a comparison in a rule depends on the NUMBER a span carries, not on the Go type the wire encoding
+// produced for it (JSON gives float64, msgpack gives int64 / uint64 / float32 / float64, YAML rule values are
+// int or float64). compare() must order any two numeric values by their numeric value.
+//@ spec isNumeric(v any) bool := isInt64(v) || isInt(v) || isUint64(v) || isFloat64(v) || isFloat32(v)
+//@ spec numOf(v any) float64 := ite(isFloat64(v) || isFloat32(v), anyFloat(v), toReal(anyInt(v)))
+//@ contract sample.normalizeNumber props C09,C08
+//@   arith math
+//@   ensures[integers-that-fit-become-int64] isInt64(v) || isInt(v) || (isUint64(v) && anyInt(v) <= 9223372036854775807) ==> isInt64(result) && anyInt(result) == anyInt(v)
+//@   ensures[huge-unsigned-become-float64] isUint64(v) && anyInt(v) > 9223372036854775807 ==> isFloat64(result)
+//@   ensures[floats-become-float64] isFloat64(v) || isFloat32(v) ==> isFloat64(result) && anyFloat(result) == anyFloat(v)
+//@   ensures[everything-else-is-untouched] isString(v) || isBool(v) || v == nil ==> result == v
+//@   ensures[a-non-number-stays-a-non-number] isString(v) ==> isString(result)
+//@   modifies nothing
+//@ contract sample.compare props C09,C08
+//@   arith math
+// integers up to 2^53 in magnitude are exactly representable in float64 (beyond that the int/float comparison rounds)
+//@   domain[exactly-representable-integers] (isInt64(a) || isInt(a) || isUint64(a) ==> -9007199254740992 <= anyInt(a) && anyInt(a) <= 9007199254740992) && (isInt64(b) || isInt(b) || isUint64(b) ==> -9007199254740992 <= anyInt(b) && anyInt(b) <= 9007199254740992)
+//@   ensures[numbers-compare-by-value-whatever-their-type] isNumeric(a) && isNumeric(b) ==> result1 && result0 == ite(numOf(a) < numOf(b), -1, ite(numOf(a) > numOf(b), 1, 0))
+//@   ensures[strings-compare-as-strings] isString(a) && isString(b) ==> result1 && result0 == ite(anyString(a) < anyString(b), -1, ite(anyString(a) == anyString(b), 0, 1))
+//@   ensures[booleans-false-before-true] isBool(a) && isBool(b) ==> result1 && result0 == ite(anyBool(a) == anyBool(b), 0, ite(anyBool(b), -1, 1))
+//@   ensures[a-number-and-a-string-do-not-compare] (isNumeric(a) && isString(b)) || (isString(a) && isNumeric(b)) ==> !result1
+//@   modifies nothing
